@@ -6,8 +6,10 @@ import OmplModel.Proofs.RSExamples
 import OmplModel.Proofs.RSWordsBack
 import OmplModel.Proofs.RSWordsCCSC
 import OmplModel.Proofs.RSReach
+import OmplModel.Proofs.RSCCCC
+import OmplModel.Proofs.RSCCCC2
 /-!
-# C14 (round 2) — Reeds–Shepp curves: the reported word is a shortest candidate, the base words reach the goal, `interpolate` drives the signed word
+# C14 (rounds 2 and 3) — Reeds–Shepp curves: the reported word is a shortest candidate, the base words reach the goal, `interpolate` drives the signed word
 
 Property theorems about the model `OmplModel.RS` (Model/ReedsShepp.lean) of
 `ompl::base::ReedsSheppStateSpace` (ReedsSheppStateSpace.cpp).  Helper lemmas live in `Proofs/RS*.lean`
@@ -49,16 +51,27 @@ What is proved
   `Proofs/RSBack.lean`).
 * [EX] hence **all 8 CSC, all 8 CCC and all 16 CCSC candidates reach the goal** — plain, timeflip,
   reflect, both, and their backwards images (`rs_CSC_candidates_reach`, `rs_CCC_candidates_reach`,
-  `rs_CCSC_candidates_reach`), and so does whatever `reedsShepp` returns unless it is a CCCC / CCSCC word
-  (`rs_reedsShepp_reaches_partial`; `rs_reedsShepp_reaches_of` takes those two families as hypotheses).
+  `rs_CCSC_candidates_reach`).
+* [EX] (round 3) `tauOmega`: closed form of `(tau, omega)` modulo 2π (`rs_tauOmega_spec`); when `t2 ≥ 0` and
+  `ξ² + η² = 4(A² + B²)` the returned `tau` solves `2(A cos τ − B sin τ) = ξ`, `2(B cos τ + A sin τ) = η`
+  (`rs_tauOmega_tau_solves`); at both call sites `t2` is `(2 cos u − 1)²` resp. `5 − 4 cos u`, so the
+  `t2 < 0` branch is never taken in exact arithmetic (`rs_tauOmega_t2_callers`).
+* [EX] (round 3) **the two four-arc base words reach the goal**: formulas 8.7, 8.8 — the exact form of the
+  `assert`s in `LpRupLumRm`, `LpRumLumRp` (`rs_LpRupLumRm_reaches`, `rs_LpRumLumRp_reaches`) — hence **all 8
+  CCCC candidates reach the goal** (`rs_CCCC_candidates_reach`).
+* [EX] (round 3) **whatever `reedsShepp(x, y, φ)` returns reaches the goal** (`rs_reedsShepp_reaches`,
+  unconditional): driven from the origin by the model's integration the returned word ends at `(x, y)`
+  with heading `φ + 2πk`.  It combines `rs_candidates_min` (the returned path is one of the 48 candidates)
+  with the reach theorems of all five families (CSC, CCC, CCSC here; CCSCC = formula 8.11 in
+  `Proofs/RSFive.lean` / `Proofs/RSFiveAll.lean`, restated in `Props/C14.lean`; CCCC here).  What remains
+  assumed is the model's own frame: exact arithmetic over ℝ (`mod2pi` exact modulo 2π is proved,
+  `rmod2pi_exact`); the code's acceptance tests (`t ≥ -ZERO` …) are part of the solvers.  Consequence:
+  `√(x² + y²) ≤ length()` for every returned path (`rs_reedsShepp_length_ge_straight_line`).
 
 What is NOT proved
 * optimality of the 48-word set (Reeds–Shepp's theorem): `rs_candidates_min` is minimality among the
   candidates the code computes, not among all curvature-bounded curves with reversals;
 * symmetry of the distance, and `reedsShepp ≤ dubins`;
-* the reach identities of `LpRupLumRm`, `LpRumLumRp` (CCCC, via `tauOmega`) and, in this file,
-  `LpRmSLmRp` (CCSCC; see `Proofs/RSFive.lean` of the same round) — so "the returned path reaches the
-  goal" is stated only as `rs_reedsShepp_reaches_partial` (full statement in its doc comment);
 * floating-point rounding, and the behaviour inside the `ZERO = 10·DBL_EPSILON` acceptance thresholds
   (`t ≥ -ZERO` etc.): over ℝ they only decide which candidates exist (defect F67 lives there).
 -/
@@ -463,30 +476,139 @@ example : some (key3 (0 : ℝ) (-1) 0, bCCSC 4 false (0 : ℝ) (-1) 0) ∈
   rw [LpRmSmLm_ex]
   simp [mkCand]
 
-/-- [EX] **What `reedsShepp` returns reaches the goal, given the two families not proved here**: if
-every CCCC and every CCSCC candidate reaches the goal, so does the returned path. -/
-theorem rs_reedsShepp_reaches_of (x y phi : ℝ)
-    (hCCCC : ∀ L Q, some (L, Q) ∈ candsCCCC x y phi → Reaches Q x y phi)
-    (hCCSCC : ∀ L Q, some (L, Q) ∈ candsCCSCC x y phi → Reaches Q x y phi)
-    (P : RSPath ℝ) (hP : reedsShepp x y phi = some P) : Reaches P x y phi :=
-  reedsShepp_reaches_of x y phi hCCCC hCCSCC P hP
+/-! ## Group 3 [EX] (round 3): `tauOmega` and the four-arc family CCCC -/
 
-example : ∃ P, reedsShepp (3 : ℝ) 0 0 = some P := reedsShepp_3_0_0
+/-- [EX] **Closed form of `tauOmega`.**  With `δ = mod2pi(u − v)`, `A = sin u − sin δ`,
+`B = cos u − cos δ − 1`, `t2 = 2(cos δ − cos v − cos u) + 3` and `T = atan2(ηA − ξB, ξA + ηB)`
+(`Num.atan2 y x = Complex.arg ⟨x, y⟩` over ℝ), the pair `(tau, omega)` the code computes satisfies, modulo
+2π: `δ ≡ u − v`, `tau ≡ T + π` if `t2 < 0` and `tau ≡ T` otherwise, `omega ≡ tau − u + v − φ`. -/
+theorem rs_tauOmega_spec (u v xi eta phi : ℝ) :
+    let δ := rmod2pi (u - v)
+    let A := Real.sin u - Real.sin δ
+    let B := Real.cos u - Real.cos δ - 1
+    let t2 := 2 * (Real.cos δ - Real.cos v - Real.cos u) + 3
+    let T := Complex.arg ⟨xi * A + eta * B, eta * A - xi * B⟩
+    let tau := (tauOmega u v xi eta phi).1
+    let omega := (tauOmega u v xi eta phi).2
+    (∃ k : ℤ, δ = u - v + k * (2 * Real.pi)) ∧
+    (∃ k : ℤ, tau = (if t2 < 0 then T + Real.pi else T) + k * (2 * Real.pi)) ∧
+    (∃ k : ℤ, omega = tau - u + v - phi + k * (2 * Real.pi)) :=
+  tauOmega_spec u v xi eta phi
 
-/-- [EX] **What `reedsShepp` returns reaches the goal — partial.**  Full statement (not proved):
-`reedsShepp x y phi = some P → Reaches P x y phi`.  Proved here for every returned path whose word type
-is not a CCCC type (2, 3: `LpRupLumRm`, `LpRumLumRp`, via `tauOmega`) nor a CCSCC type (16, 17:
-`LpRmSLmRp`): driven from the origin it ends at `(x, y)` with heading `φ` modulo 2π. -/
-theorem rs_reedsShepp_reaches_partial (x y phi : ℝ) (P : RSPath ℝ) (hP : reedsShepp x y phi = some P)
-    (hty : P.ty ≠ 2 ∧ P.ty ≠ 3 ∧ P.ty ≠ 16 ∧ P.ty ≠ 17) :
+example : tauOmega (0 : ℝ) 0 2 0 0 = (Real.pi / 2, Real.pi / 2) := tauOmega_ex
+example : tauOmega (Real.pi / 3) (-(Real.pi / 3)) 0 0 0 = (0, -(2 * Real.pi / 3)) := tauOmega_ex2
+
+/-- [EX] **What `tau` solves.**  In the branch `t2 ≥ 0`, if `ξ² + η² = 4(A² + B²)` (which is how the two
+callers choose `u`), the returned `tau` satisfies `2(A cos τ − B sin τ) = ξ` and `2(B cos τ + A sin τ) = η`:
+the rotation by `τ` of the fixed vector `2(A, B)` is `(ξ, η)`. -/
+theorem rs_tauOmega_tau_solves (u v xi eta phi : ℝ) :
+    let δ := rmod2pi (u - v)
+    let A := Real.sin u - Real.sin δ
+    let B := Real.cos u - Real.cos δ - 1
+    let tau := (tauOmega u v xi eta phi).1
+    0 ≤ 2 * (Real.cos δ - Real.cos v - Real.cos u) + 3 →
+    xi ^ 2 + eta ^ 2 = 4 * (A ^ 2 + B ^ 2) →
+    2 * (A * Real.cos tau - B * Real.sin tau) = xi ∧ 2 * (B * Real.cos tau + A * Real.sin tau) = eta :=
+  fun ht2 h => tauOmega_tau_solves u v xi eta phi ht2 h
+
+-- the premises are satisfiable: `u = v = 0`, `(ξ, η) = (2, 0)` gives `δ = 0`, `A = 0`, `B = −1`, `t2 = 1`
+example : (0 : ℝ) ≤ 2 * (Real.cos (rmod2pi (0 - 0)) - Real.cos 0 - Real.cos 0) + 3 ∧
+    (2 : ℝ) ^ 2 + 0 ^ 2 = 4 * ((Real.sin 0 - Real.sin (rmod2pi (0 - 0))) ^ 2 +
+      (Real.cos 0 - Real.cos (rmod2pi (0 - 0)) - 1) ^ 2) := by
+  rw [sub_self, rmod2pi_zero, Real.sin_zero, Real.cos_zero]; norm_num
+
+/-- [EX] **The `t2 < 0` branch of `tauOmega` is dead at both call sites** (in exact arithmetic):
+`LpRupLumRm` calls `tauOmega(u, −u, …)` where `t2 = (2 cos u − 1)² ≥ 0`, `LpRumLumRp` calls
+`tauOmega(u, u, …)` where `t2 = 5 − 4 cos u ≥ 1`. -/
+theorem rs_tauOmega_t2_callers (u : ℝ) :
+    2 * (Real.cos (rmod2pi (u - -u)) - Real.cos (-u) - Real.cos u) + 3 = (2 * Real.cos u - 1) ^ 2 ∧
+    2 * (Real.cos (rmod2pi (u - u)) - Real.cos u - Real.cos u) + 3 = 5 - 4 * Real.cos u :=
+  tauOmega_t2_callers u
+
+-- the square does vanish (at `u = π/3`, i.e. `ξ = η = 0`), so over doubles `t2` may round either way there
+example : (2 * Real.cos (Real.pi / 3) - 1) ^ 2 = 0 := by rw [Real.cos_pi_div_three]; norm_num
+
+/-- [EX] **`L⁺R⁺L⁻R⁻` (formula 8.7) reaches the goal**: if `LpRupLumRm(x, y, φ)` returns `(t, u, v)`, the
+word `L t · R u · L (−u) · R v` (type 2, as `CCCC` stores it) driven from the origin ends at `x`, `y`,
+heading `φ + 2πk` (the three `assert`s of `LpRupLumRm`, exactly). -/
+theorem rs_LpRupLumRm_reaches (x y phi t u v : ℝ) (h : LpRupLumRm x y phi = some (t, u, v)) :
+    (rsIntegFull (bCCCCa 2 false t u v).segList ⟨0, 0, 0⟩).x = x ∧
+    (rsIntegFull (bCCCCa 2 false t u v).segList ⟨0, 0, 0⟩).y = y ∧
+    ∃ k : ℤ, (rsIntegFull (bCCCCa 2 false t u v).segList ⟨0, 0, 0⟩).th = phi + k * (2 * Real.pi) :=
+  LpRupLumRm_reaches x y phi t u v h
+
+-- the parallel pose two radii to the left is reached by the four-arc word `L 0 · R π/3 · L −π/3 · R −2π/3`
+example : LpRupLumRm (0 : ℝ) 2 0 = some (0, Real.pi / 3, -(2 * Real.pi / 3)) := LpRupLumRm_ex2
+example : LpRupLumRm (1 : ℝ) 1 (Real.pi / 2) = some (Real.pi / 2, 0, 0) := LpRupLumRm_ex
+-- the end pose of the stored word, in closed form (the left sides of the three `assert`s)
+example (t u v : ℝ) : rsIntegFull (bCCCCa 2 false t u v).segList ⟨0, 0, 0⟩ =
+    ⟨2 * Real.sin t - 2 * Real.sin (t - u) + 2 * Real.sin (t - 2 * u) - Real.sin (t - 2 * u - v),
+     1 - 2 * Real.cos t + 2 * Real.cos (t - u) - 2 * Real.cos (t - 2 * u) + Real.cos (t - 2 * u - v),
+     t - 2 * u - v⟩ := end_LRLR_a t u v
+
+/-- [EX] **`L⁺R⁻L⁻R⁺` (formula 8.8) reaches the goal**: if `LpRumLumRp(x, y, φ)` returns `(t, u, v)`, the
+word `L t · R u · L u · R v` (type 2, `u ≤ 0`) driven from the origin ends at `x`, `y`, heading `φ + 2πk`
+(the three `assert`s of `LpRumLumRp`, exactly). -/
+theorem rs_LpRumLumRp_reaches (x y phi t u v : ℝ) (h : LpRumLumRp x y phi = some (t, u, v)) :
+    (rsIntegFull (bCCCCb 2 false t u v).segList ⟨0, 0, 0⟩).x = x ∧
+    (rsIntegFull (bCCCCb 2 false t u v).segList ⟨0, 0, 0⟩).y = y ∧
+    ∃ k : ℤ, (rsIntegFull (bCCCCb 2 false t u v).segList ⟨0, 0, 0⟩).th = phi + k * (2 * Real.pi) :=
+  LpRumLumRp_reaches x y phi t u v h
+
+example : LpRumLumRp (2 : ℝ) 2 0 = some (Real.pi / 2, 0, Real.pi / 2) := LpRumLumRp_ex
+example (t u v : ℝ) : rsIntegFull (bCCCCb 2 false t u v).segList ⟨0, 0, 0⟩ =
+    ⟨4 * Real.sin t - 2 * Real.sin (t - u) - Real.sin (t - v),
+     1 - 4 * Real.cos t + 2 * Real.cos (t - u) + Real.cos (t - v), t - v⟩ := end_LRLR_b t u v
+
+/-- [EX] **Every CCCC candidate reaches the goal**: all eight images (plain, timeflip with all four
+lengths negated, reflect = type 3, both, of `LpRupLumRm` and `LpRumLumRp`) that `CCCC(x, y, φ)` may store,
+driven from the origin, end at `(x, y)` with heading `φ` modulo 2π. -/
+theorem rs_CCCC_candidates_reach (x y phi L : ℝ) (Q : RSPath ℝ) (h : some (L, Q) ∈ candsCCCC x y phi) :
+    (rsIntegFull Q.segList ⟨0, 0, 0⟩).x = x ∧ (rsIntegFull Q.segList ⟨0, 0, 0⟩).y = y ∧
+    ∃ k : ℤ, (rsIntegFull Q.segList ⟨0, 0, 0⟩).th = phi + k * (2 * Real.pi) :=
+  CCCC_candidates_reach x y phi L Q h
+
+example : some (key4 (0 : ℝ) (Real.pi / 3) (-(2 * Real.pi / 3)),
+    bCCCCa 2 false (0 : ℝ) (Real.pi / 3) (-(2 * Real.pi / 3))) ∈ candsCCCC (0 : ℝ) 2 0 := by
+  unfold candsCCCC four
+  rw [LpRupLumRm_ex2]
+  simp [mkCand]
+
+/-! ## Group 3 [EX]: the returned path reaches the goal -/
+
+/-- [EX] **What `reedsShepp` returns reaches the goal.**  Whatever path `reedsShepp(x, y, φ)` returns —
+any of the 18 word types, any of the timeflip / reflect / backwards images of the nine base formulas
+8.1–8.11 — its word (type and five signed lengths), driven from the origin `(0, 0, 0)` by the model's own
+integration `rsIntegFull` (the vehicle model of `rs_integrate_segment`), ends at position `(x, y)` with
+heading `φ + 2πk`.  No hypothesis on the word type or on `(x, y, φ)`; what is assumed is the frame of the
+[EX] theorems only: exact real arithmetic in place of doubles (`mod2pi` exact modulo 2π is proved,
+`rmod2pi_exact`); the `±ZERO` acceptance tests are part of the solvers and decide only which candidates
+exist. -/
+theorem rs_reedsShepp_reaches (x y phi : ℝ) (P : RSPath ℝ) (hP : reedsShepp x y phi = some P) :
     (rsIntegFull P.segList ⟨0, 0, 0⟩).x = x ∧ (rsIntegFull P.segList ⟨0, 0, 0⟩).y = y ∧
     ∃ k : ℤ, (rsIntegFull P.segList ⟨0, 0, 0⟩).th = phi + k * (2 * Real.pi) :=
-  reedsShepp_reaches_partial x y phi P hP hty
+  reedsShepp_reaches x y phi P hP
 
--- the premises are satisfiable: a path is returned for `(3,0,0)`, and candidate types outside {2,3,16,17} exist
+-- the premise is satisfiable: paths are returned for `(3,0,0)` (a CSC candidate exists) and for `(0,2,0)`
+-- (a CCCC candidate exists)
 example : ∃ P, reedsShepp (3 : ℝ) 0 0 = some P := reedsShepp_3_0_0
-example : (bCSC 14 false (0 : ℝ) 3 0).ty ≠ 2 ∧ (bCSC 14 false (0 : ℝ) 3 0).ty ≠ 3 ∧
-    (bCSC 14 false (0 : ℝ) 3 0).ty ≠ 16 ∧ (bCSC 14 false (0 : ℝ) 3 0).ty ≠ 17 := by
-  refine ⟨?_, ?_, ?_, ?_⟩ <;> (show (14 : Nat) ≠ _; decide)
+example : ∃ P, reedsShepp (0 : ℝ) 2 0 = some P := by
+  refine (rs_candidates_min 0 2 0).2 (key4 (0 : ℝ) (Real.pi / 3) (-(2 * Real.pi / 3)))
+    (bCCCCa 2 false (0 : ℝ) (Real.pi / 3) (-(2 * Real.pi / 3))) ?_
+  unfold allCands
+  simp only [List.mem_append]
+  refine Or.inl (Or.inl (Or.inr ?_))
+  unfold candsCCCC four
+  rw [LpRupLumRm_ex2]
+  simp [mkCand]
+
+/-- [EX] consequence: the reported length is at least the straight-line distance to the goal,
+`√(x² + y²) ≤ length()`, for every path `reedsShepp` returns. -/
+theorem rs_reedsShepp_length_ge_straight_line (x y phi : ℝ) (P : RSPath ℝ)
+    (hP : reedsShepp x y phi = some P) : Real.sqrt (x ^ 2 + y ^ 2) ≤ P.len := by
+  obtain ⟨hx, hy, -⟩ := reedsShepp_reaches x y phi P hP
+  exact reaches_len_ge P 0 x y hx hy
+
+example : ∃ P, reedsShepp (3 : ℝ) 0 0 = some P := reedsShepp_3_0_0
 
 end OmplModel.Props.C14RS
